@@ -381,13 +381,15 @@ def run(ctx, replay_cases=None):
         ctx.coqchk()
 
     def search():
-        head2, more, _ = run_tool_cases(ctx, tool, ["thorough"], seed=ctx.seed + 1)
-        for c in more or []:
-            if c.get("fatal"):
-                continue
-            for (i, what, cls) in monitor_case(c):
-                if ctx.match_known(cls, "monitor") is None:
-                    return dict(slim(c, i), what=what, cls=cls)
+        # extra budget: further generated cases (other seeds) through the monitors
+        for extra in (1, 2, 3):
+            head2, more, _ = run_tool_cases(ctx, tool, ["quick"], seed=ctx.seed + extra)
+            for c in more or []:
+                if c.get("fatal"):
+                    continue
+                for (i, what, cls) in monitor_case(c):
+                    if ctx.match_known(cls, "monitor") is None:
+                        return dict(slim(c, i), what=what, cls=cls)
         return None
     return ctx.finish(search=search)
 
